@@ -132,7 +132,8 @@ def gen_input(rng, u, defs):
         defs.append(("bad", u))
         return {"kind": "none", "lines": [f"(defmacro bad{u} [] (raise (ValueError \"boom{u}\")))"]}
     if r < 0.89:
-        return {"kind": "badrepr", "lines": [f"(do (defclass B{u} [] (defn __repr__ [self] (raise (RuntimeError \"norepr{u}\")))) (B{u}))"]}
+        inner = rng.choice([f"(B{u})", f"(B{u})", f"(hy.models.List [1 (B{u})])", f"[1 (hy.models.Expression [(hy.models.Symbol \"f\") (B{u})])]"])
+        return {"kind": "badrepr", "lines": [f"(do (defclass B{u} [] (defn __repr__ [self] (raise (RuntimeError \"norepr{u}\")))) {inner})"]}
     if r < 0.93:
         return {"kind": "interrupt", "lines": rng.choice([[f"(+ {u}"], [f"[{u}", " 2"], [f"\"open string {u}"], [f"#[[{u}", "x"]])}
     subs = [
@@ -241,6 +242,48 @@ def safe_repr(x):
         return "<unreprable %s>" % type(x).__name__
 
 
+class Unsupported(Exception):
+    pass
+
+
+def ref_print(v, q=False, depth=0):
+    """What hy.repr prints for the kinds of values the sessions produce, from the documented rules (one quote in front of
+    an outermost model, container syntax) -- without calling hy.repr, whose process-global state belongs to the REPL
+    under test."""
+    M = _S["hy"].models
+    if depth > 8:
+        raise Unsupported()
+    t = type(v)
+    is_model = isinstance(v, M.Object) and t is not M.Keyword
+    pre = ""
+    if is_model and not q:
+        pre, q = "'", True
+    if v is None:
+        return "None"
+    if t is bool:
+        return "True" if v else "False"
+    if t is int or t is M.Integer:
+        return pre + repr(int(v))
+    if t is str or t is M.String:
+        if t is M.String and v.brackets is not None:
+            raise Unsupported()
+        r = repr(str(v))
+        return pre + (r if r.startswith('"') else '"' + r[1:-1].replace('"', '\\"') + '"')
+    if t is M.Keyword:
+        return ":" + v.name
+    if t is M.Symbol:
+        return pre + str(v)
+    if t is list or t is M.List:
+        return pre + "[" + " ".join(ref_print(x, q, depth + 1) for x in v) + "]"
+    if t is tuple or t is M.Tuple:
+        return pre + "#(" + " ".join(ref_print(x, q, depth + 1) for x in v) + ")"
+    if t is M.Expression:
+        return pre + "(" + " ".join(ref_print(x, q, depth + 1) for x in v) + ")"
+    if t is dict:
+        return "{" + "  ".join(ref_print(k, q, depth + 1) + " " + ref_print(x, q, depth + 1) for k, x in v.items()) + "}"
+    raise Unsupported()
+
+
 def contains_unprintable(v, depth=0):
     """True when v is, or holds, an instance of one of the classes the `badrepr` inputs define (their __repr__ raises)."""
     import re
@@ -249,7 +292,7 @@ def contains_unprintable(v, depth=0):
     t = type(v)
     if re.fullmatch(r"B\d+", t.__name__) and "__repr__" in t.__dict__:
         return True
-    if t in (list, tuple, set, frozenset):
+    if isinstance(v, (list, tuple, set, frozenset)):
         return any(contains_unprintable(x, depth + 1) for x in v)
     if t is dict:
         return any(contains_unprintable(x, depth + 1) for kv in v.items() for x in kv)
@@ -361,7 +404,14 @@ class Lockstep:
                     repr_failed = True
                 else:
                     try:
-                        exp_out += self.output_fn(outcome[1]) + "\n"
+                        if self.output_fn is self.hy.repr:
+                            try:
+                                exp_out += ref_print(outcome[1]) + "\n"
+                                self.probes["results_checked_against_reference_printer"] = self.probes.get("results_checked_against_reference_printer", 0) + 1
+                            except Unsupported:
+                                exp_out += self.output_fn(outcome[1]) + "\n"
+                        else:
+                            exp_out += self.output_fn(outcome[1]) + "\n"
                     except Exception:
                         repr_failed = True
             if failed:
